@@ -152,16 +152,30 @@ def main(run):
     from . import C17
 
     L17, cp, geo = C17.load()
-    name, fn = [o for o in C17.obligations(cp, geo) if o[0] == "configuration_fills_tower_xy_for_every_origin"][0]
-    for bad, c in ex.explore(fn, cap=16):
-        s = ex.solver_for(c)
-        s.add(z3.Or(bad))
-        r = run.solve(s, name, dict(obligation=name))
-        run.twin(ex.solver_for(c), name)
-        run.paths["explored"] += 1
-        if r == "sat":
-            res17 = C17.replay({})
-            run.report(dict(property=PID, obligation=name, replay=res17), res17["confirmed"])
+    # ... and those local coordinates are oriented x east / y north with the origin at (0, 0) for every origin and tower
+    # (otherwise "upwind of the tower" is meaningless for towers placed by latitude / longitude)
+    wanted = ("configuration_fills_tower_xy_for_every_origin", "origin_maps_to_zero", "x_east_y_north_and_separable")
+    reported = False
+    for name, fn in [o for o in C17.obligations(cp, geo) if o[0] in wanted]:
+        for bad, c in ex.explore(fn, cap=16):
+            s = ex.solver_for(c)
+            s.add(z3.Or(bad))
+            r = run.solve(s, name, dict(obligation=name))
+            run.twin(ex.solver_for(c), name)
+            run.paths["explored"] += 1
+            if r == "sat" and not reported:
+                reported = True
+                vals = {}
+                m_ = s.model()
+                for d in m_.decls():
+                    if d.name() in ("lat", "lon", "ref_lat", "ref_lon", "lat2", "lon2"):
+                        try:
+                            v = m_[d]
+                            vals[d.name()] = float(v.numerator_as_long()) / float(v.denominator_as_long())
+                        except Exception:
+                            pass
+                res17 = C17.replay(dict(model=vals))
+                run.report(dict(property=PID, obligation=name, model=vals, replay=res17), res17["confirmed"])
     run.bounds = dict(part_a="all speeds >= 0 and all real directions", part_b="as C13; tower coordinates: all reference origins")
     for name, patch in CANARIES:
         try:
